@@ -292,6 +292,36 @@ Definition rdb_fetch (cfg : config) (len : nat) (fs : list outcome) : rdb_result
   let '(res, n) := request cfg PObject len [] fs in
   (match res with Ok d => RdbOk d | Err Raw => RdbRaw | Err _ => RdbNotFound end, n).
 
+(* ---------- the other request sites of the public API: put_chunk, is_complete, mark_complete ----------
+   All three go through S3ChunkStore.request with the default `process` (identity) and without stream=True, like the
+   bucket listing: PListing.  `len` is the length of the body of the server's 200 answer (nothing for a PUT and for the
+   empty `complete` marker object). *)
+Definition err_name (e : err) : string :=
+  match e with
+  | Glitch => "S3ServerGlitch" | NotFound => "S3ObjectNotFound" | Auth => "AuthorisationFailed"
+  | Unavail => "StoreUnavailable" | InvalidTok => "InvalidToken" | Raw => ""
+  end.
+Definition put_chunk (cfg : config) (len : nat) (fs : list outcome) : result * nat := request cfg PListing len [] fs.
+
+(* is_complete: `except <s3_is_complete_catches>: return False`; the exceptions of this module derived from that class
+   are s3_chunk_not_found *)
+Inductive complete_res := CTrue | CFalse | CRaise (e : err).
+Definition caught_by_is_complete (e : err) : bool :=
+  String.eqb s3_is_complete_catches "ChunkNotFound" && mem_string (err_name e) s3_chunk_not_found.
+Definition is_complete (cfg : config) (len : nat) (fs : list outcome) : complete_res * nat :=
+  let '(res, n) := request cfg PListing len [] fs in
+  (match res with Ok _ => CTrue | Err e => if caught_by_is_complete e then CFalse else CRaise e end, n).
+
+(* mark_complete: create_array = PUT of the bucket with s3_create_bucket_ignored (409: it exists already) treated
+   as success, then PUT of the empty marker object.  One fault script for the whole call: every request consumes one
+   entry.  (result, bucket requests, marker requests) *)
+Definition mark_complete (cfg : config) (fs : list outcome) : result * nat * nat :=
+  let '(rb, nb) := request cfg PListing O s3_create_bucket_ignored fs in
+  match rb with
+  | Ok _ => let '(r, n) := request cfg PListing O [] (skipn nb fs) in (r, nb, n)
+  | Err e => (Err e, nb, O)
+  end.
+
 (* =====================================================================================
    SPEC: the property, by counting faults
    ===================================================================================== *)
@@ -342,6 +372,16 @@ Definition spec_requests (fl : list Z) (len : nat) (b : retry) (fs : list outcom
 
 Definition spec_request (cfg : config) (len : nat) (fs : list outcome) : result * nat :=
   (spec_result (c_forcelist cfg) len (c_retry cfg) fs, spec_requests (c_forcelist cfg) len (c_retry cfg) fs).
+
+(* is_complete by the counting spec: present, absent (404, or the transient faults did not fit the budget), or the
+   permanent failure is passed on *)
+Definition spec_is_complete (cfg : config) (len : nat) (fs : list outcome) : complete_res :=
+  match spec_result (c_forcelist cfg) len (c_retry cfg) fs with
+  | Ok _ => CTrue
+  | Err NotFound => CFalse
+  | Err Glitch => CFalse
+  | Err e => CRaise e
+  end.
 
 (* 404 rule: a 404 on the object is a missing chunk only if the bucket is known to be, or is found to be, present and
    non-empty.  The property does not say how faults of the listing request itself are budgeted, so the spec takes the
@@ -416,6 +456,21 @@ Definition wire_9 (x : sx) : sx :=
       let '(sres, sn) := spec_request cfg (Z.to_nat len) (to_outcomes fs) in
       L [match res with RdbOk d => L [I 0; I (Z.of_nat d)] | RdbNotFound => L [I 1; I 0] | RdbRaw => L [I 9; I 0] end;
          of_nat n; of_result sres; of_nat sn]
+  | L [I 4; cfg; I len; fs] =>        (* put_chunk: (model_result requests spec_result spec_requests) *)
+      let cfg := to_config cfg in
+      let '(res, n) := put_chunk cfg (Z.to_nat len) (to_outcomes fs) in
+      let '(sres, sn) := spec_request cfg (Z.to_nat len) (to_outcomes fs) in
+      L [of_result res; of_nat n; of_result sres; of_nat sn]
+  | L [I 5; cfg; I len; fs] =>        (* is_complete: (model (0 true | 1 false | 2 raise e) requests spec spec_requests) *)
+      let cfg := to_config cfg in
+      let fs := to_outcomes fs in
+      let len := Z.to_nat len in
+      let oc (c : complete_res) := match c with CTrue => L [I 0; I 0] | CFalse => L [I 1; I 0] | CRaise e => L [I 2; I (of_err e)] end in
+      let '(res, n) := is_complete cfg len fs in
+      L [oc res; of_nat n; oc (spec_is_complete cfg len fs); of_nat (spec_requests (c_forcelist cfg) len (c_retry cfg) fs)]
+  | L [I 6; cfg; fs] =>               (* mark_complete: (model_result bucket_requests marker_requests) *)
+      let '(res, nb, n) := mark_complete (to_config cfg) (to_outcomes fs) in
+      L [of_result res; of_nat nb; of_nat n]
   | L [I 3; cfg; segs; fs] =>
       let cfg := to_config cfg in
       let segs := to_nats segs in
